@@ -193,7 +193,7 @@ static int parseConv(MPT_INTERFACE(convertable) *val, MPT_TYPE(type) type, void 
 		return MPT_ENUM(TypeIteratorPtr);
 	}
 	if (type == 's') {
-		*((const char **) dest) = (char *) (it + 1);
+		if (dest) *((const char **) dest) = (char *) (it + 1);
 		return 's';
 	}
 	if (type == MPT_ENUM(TypeVector)
